@@ -110,7 +110,9 @@ class ScriptTransport(BaseTransport, scheme="sim"):
         assert isinstance(target, SimTarget)
         target.world.rec.rec("connect")
         await target.world.on_connect()
-        return cls(target)
+        inst = cls(target)
+        target.world.rec.rec("connected", conn=inst.index)
+        return inst
 
     async def close(self) -> None:
         self.world.rec.rec("close", conn=self.index, already=self.is_closed)
